@@ -68,7 +68,7 @@ static int32_t evalTree(const Tree &t, const int32_t v[3], int &flags) {
   }
 }
 // kinds: 0 literal, 1 global val, 2 local val | 3 local var, 4 global var, 5 val formal
-static std::string program(const Tree &t, const int32_t v[3], const int k[3], int context) {
+static std::string program(const Tree &t, const int32_t v[3], const int k[3], int context, int32_t expect = 0) {
   std::string gdecl, ldecl, init, formals, actuals, L[3];
   for (int j = 0; j < t.nleaves; j++) {
     std::string n = std::to_string(j), l = lit(v[j]);
@@ -82,16 +82,31 @@ static std::string program(const Tree &t, const int32_t v[3], const int k[3], in
     }
   }
   std::string e = render(t, L);
-  std::string body = context == 0 ? "0(" + e + ")" : "r[1] := " + e + "; 0(r[1])";
-  return gdecl + "array r[2];\nproc t(" + formals + ") is " + ldecl + "\n{ " + init + body + " }\nproc main() is t(" + actuals + ")\n";
+  // contexts: 0 exit argument, 1 stored array element, 2 subscript of a read, 3 subscript of a write, 4 second actual of a call, 5 operand of a comparison in a condition,
+  // 6 subscript offset by a run-time index (w[i + e] with i = 0), 7 operand next to a call
+  static const char *W8 = "w[0] := 100; w[1] := 101; w[2] := 102; w[3] := 103; w[4] := 104; w[5] := 105; w[6] := 106; w[7] := 107; ";
+  static const char *SUM8 = "((w[0] + (w[1] + w[1])) + ((w[2] + w[2]) + (w[2] + (w[3] + w[3])))) + (((w[4] + w[4]) + (w[4] + w[5])) + ((w[6] + w[6]) + (w[7] + (w[7] + w[7]))))";
+  std::string body;
+  switch (context) {
+  case 0: body = "0(" + e + ")"; break;
+  case 1: body = "r[1] := " + e + "; 0(r[1])"; break;
+  case 2: body = std::string(W8) + "0(w[" + e + "])"; break;
+  case 3: body = std::string(W8) + "w[" + e + "] := 9; 0(" + SUM8 + ")"; break;
+  case 4: body = "0(pick(5, " + e + "))"; break;
+  case 5: body = "if (" + e + ") = " + lit(expect) + " then 0(11) else 0(22)"; break;
+  case 6: body = std::string(W8) + "r[0] := 0; 0(w[r[0] + (" + e + ")])"; break;
+  default: body = "0(pick(1, 2) + (" + e + "))"; break;
+  }
+  return gdecl + "array r[2]; array w[8];\nfunc pick(val a, val b) is return b - a\nproc t(" + formals + ") is " + ldecl + "\n{ " + init + body + " }\nproc main() is t(" + actuals + ")\n";
 }
 
 int main(int argc, char **argv) {
-  ctx = parse_args("C07", argc, argv, 240, 1700);
+  ctx = parse_args("C07", argc, argv, 240, 3400);
   Report rep; rep.ctx = ctx;
-  std::vector<int32_t> V = ctx.thorough() ? std::vector<int32_t>{0, 1, -1, 2, 15, 16, 255, 256, 65535, 65536, -65535, -65536, 65537, INT32_MAX, INT32_MIN, INT32_MIN + 1}
-                                          : std::vector<int32_t>{0, 1, -1, 16, 65535, 65536, -65536, INT32_MAX, INT32_MIN};
+  std::vector<int32_t> V = ctx.thorough() ? std::vector<int32_t>{0, 1, -1, 2, 5, 15, 16, 255, 256, 65535, 65536, -65535, -65536, 65537, INT32_MAX, INT32_MIN, INT32_MIN + 1}
+                                          : std::vector<int32_t>{0, 1, -1, 2, 5, 16, 65535, 65536, -65536, INT32_MAX, INT32_MIN};
   std::vector<int> KINDS = ctx.thorough() ? std::vector<int>{0, 1, 2, 3, 4, 5} : std::vector<int>{0, 1, 3};
+  std::vector<int> KINDS_EXTRA = {0, 1, 3};
   std::vector<int32_t> VB = {0, 1};
   auto T = trees();
   auto runOne = [&](xrun::Runner &R, const std::string &src, int32_t &rv, std::string &what) -> int {  // 0 ok, 1 compile error, 2 run problem
@@ -128,23 +143,28 @@ int main(int argc, char **argv) {
       if (ctx.expired()) { st.add("groups_skipped_deadline"); continue; }
       int ti; int32_t v[3] = {0, 0, 0}; decode(i, ti, v); const Tree &t = T[ti];
       int flags = 0; int32_t exact = evalTree(t, v, flags);
-      int ctxN = 2;
+      int ctxN = 8;
       for (int cx = 0; cx < ctxN; cx++) {
+        // subscript contexts only where the exact value is a valid index; boolean-typed results are not used as subscripts, actuals of arithmetic or comparison operands
+        if ((cx == 2 || cx == 3 || cx == 6) && (t.resBool || (flags & ~0) != 0 || exact < 0 || exact > 7)) continue;
+        if ((cx == 4 || cx == 5 || cx == 7) && t.resBool) continue;
+        if (cx >= 2 && !ctx.thorough() && t.nleaves == 3 && (i % 3) != (uint64_t)(cx % 3)) continue;   // quick: each 3-leaf group takes a third of the extra contexts
         int kr[3] = {3, 3, 3};
-        std::string rsrc = program(t, v, kr, cx); int32_t base = 0; std::string w;
+        std::string rsrc = program(t, v, kr, cx, exact); int32_t base = 0; std::string w;
         int s = runOne(R, rsrc, base, w); st.add("programs");
         std::string opsig = std::string(OPS[t.outer]) + (t.shape >= 2 ? std::string("/") + OPS[t.inner] : "") + ":shape" + std::to_string(t.shape);
         std::string cls = (flags & 1) ? "relational-difference-overflow" : (flags & 2) ? "arithmetic-wraps" : "exact";
         if (s) { st.violation("runtime-variant-failed:" + opsig, i, Obj().kv("runtime_source", rsrc).kv("variant_source", rsrc).kv("what", w).str()); continue; }
-        if (!(flags & 1) && base != exact) st.violation("runtime-differs-from-exact-wrapping-semantics:" + opsig + ":" + cls, i, Obj().kv("runtime_source", rsrc).kv("variant_source", rsrc).kv("what", "run-time result " + std::to_string(base) + ", two's-complement evaluation " + std::to_string(exact)).str());
+        if (cx <= 1 && !(flags & 1) && base != exact) st.violation("runtime-differs-from-exact-wrapping-semantics:" + opsig + ":" + cls, i, Obj().kv("runtime_source", rsrc).kv("variant_source", rsrc).kv("what", "run-time result " + std::to_string(base) + ", two's-complement evaluation " + std::to_string(exact)).str());
         if (flags == 0 && cx == 0) { auto o = refx::run(rsrc, ""); if (o.status == refx::Outcome::OK) { st.add("refx_checked"); if (o.exitValue != base) st.violation("runtime-differs-from-reference:" + opsig, i, Obj().kv("runtime_source", rsrc).kv("variant_source", rsrc).kv("what", "reference " + std::to_string(o.exitValue) + " run time " + std::to_string(base)).str()); } }
         // every placement of compile-time / run-time leaves
-        uint64_t nk = 1; for (int j = 0; j < t.nleaves; j++) nk *= KINDS.size();
+        const std::vector<int> &KS = cx >= 2 ? KINDS_EXTRA : KINDS;   // the extra contexts use literal / global val / local var only
+        uint64_t nk = 1; for (int j = 0; j < t.nleaves; j++) nk *= KS.size();
         for (uint64_t kv = 0; kv < nk; kv++) {
           int k[3] = {3, 3, 3}; uint64_t r = kv; int nconst = 0;
-          for (int j = 0; j < t.nleaves; j++) { k[j] = KINDS[r % KINDS.size()]; r /= KINDS.size(); if (k[j] < 3) nconst++; }
+          for (int j = 0; j < t.nleaves; j++) { k[j] = KS[r % KS.size()]; r /= KS.size(); if (k[j] < 3) nconst++; }
           if (k[0] == 3 && k[1] == 3 && k[2] == 3) continue;
-          std::string src = program(t, v, k, cx); int32_t got = 0; std::string w2;
+          std::string src = program(t, v, k, cx, exact); int32_t got = 0; std::string w2;
           int s2 = runOne(R, src, got, w2); st.add("programs"); if (nconst) st.add("programs_with_compile_time_leaves");
           std::string place; for (int j = 0; j < t.nleaves; j++) place += k[j] < 3 ? 'C' : 'R';
           if (s2) st.violation("variant-failed:" + opsig + ":" + place, i, Obj().kv("runtime_source", rsrc).kv("variant_source", src).kv("what", w2).str());
@@ -167,7 +187,7 @@ int main(int argc, char **argv) {
   rep.evaluations = c["programs"]; rep.states = c["groups"]; rep.transitions = c["programs"]; rep.validated = c["programs"];
   rep.nontrivial = c["programs_with_compile_time_leaves"];
   rep.rule = "every expression tree with <=2 operators over X's 10 binary and 2 unary operators (boolean-typed operands under and/or/~) x every valuation of its leaves over the corner constants "
-             "x 2 contexts (exit argument, stored array element) x every assignment of a kind to each leaf from {literal, global val, local val | local var, global var, val formal}; "
+             "x 8 contexts (exit argument, stored element, subscript of a read and of a write and next to a run-time index where the value is a valid index, actual of a call, operand of a comparison, operand next to a call) x every assignment of a kind to each leaf from {literal, global val, local val | local var, global var, val formal}; "
              "each variant must give the same exit value as the all-run-time variant, which itself must equal two's-complement evaluation (and RefX where defined); distinct by construction; "
              "non-trivial = programs with at least one compile-time leaf";
   rep.bounds.kv("values", (uint64_t)V.size()).kv("kinds", (uint64_t)KINDS.size()).kv("trees", (uint64_t)T.size()).kv("max_operators", 2);
